@@ -94,7 +94,78 @@ func genC13(seed uint64, tier string) *Plan {
 			p.Ops = append(p.Ops, op)
 		}
 	}
+	keyHasDa := len(t.GroupBy) == 0
+	for _, g := range t.GroupBy {
+		if g == "da" {
+			keyHasDa = true
+		}
+	}
+	if keyHasDa && r.Bool(0.15) {
+		// memory limit: a table with more than 1000 keys (the limit is looked at
+		// every 1000th row of a scan) on a database with a memory cap, queried
+		// while the process is over the cap
+		op := Op{K: "mq", N: int64(r.Range(1050, 2300)), B: r.Bool(0.5)}
+		for i := 0; i < 4; i++ {
+			op.Strs = append(op.Strs, genQuery(r, t, u, o).SQL())
+		}
+		op.Strs = append(op.Strs, "SELECT * FROM "+t.Name, "SELECT _points FROM "+t.Name+" GROUP BY db", "SELECT _points FROM "+t.Name+" GROUP BY _")
+		p.Ops = append(p.Ops, op)
+	}
 	return p
+}
+
+// c13Memory: see the "mq" op.
+func c13Memory(e *Env, p *Plan, op *Op) *Violation {
+	cfg := p.Cfg
+	cfg.MaxMemoryRatio = 0.5
+	cfg.CoalesceNanos = int64(time.Millisecond)
+	m, err := e.OpenNode("M", filepath.Join(e.Root, "M"), dbOpts(&cfg), tablesWithFlush(p.Tables, int64(time.Hour), int64(1000*time.Hour)))
+	if err != nil {
+		return &Violation{"harness", err.Error()}
+	}
+	defer m.Abandon()
+	t := &p.Tables[0]
+	now := time.Now()
+	for i := 0; i < int(op.N); i++ {
+		dims := map[string]interface{}{"da": fmt.Sprintf("k%05d", i), "db": i % 7, "dc": i%2 == 0}
+		vals := map[string]interface{}{"x": float64(i%13) + 1, "y": float64(i % 5), "z": 1.5, "w": 2.0}
+		if err := m.DB.Insert(t.Stream, now.Add(-time.Duration(i%20)*time.Second), dims, vals); err != nil {
+			return &Violation{"harness", err.Error()}
+		}
+	}
+	e.Settle()
+	e.Sleep(2 * time.Second)
+	if op.B {
+		m.DB.FlushAll()
+		e.Sleep(time.Millisecond)
+	}
+	for _, sql := range op.Strs {
+		pf, pl := m.Prepare(sql, true), m.Prepare(sql, true)
+		full := pf.Run(QOpts{})
+		if full.Err != nil || full.Panicked {
+			e.Count("q.error")
+			continue
+		}
+		e.SetMemory(m, 1<<62)
+		time.Sleep(3 * time.Second) // the memory reading is refreshed every 2 s
+		q := pl.Run(QOpts{})
+		e.SetMemory(m, 0)
+		time.Sleep(3 * time.Second)
+		if q.Panicked {
+			return &Violation{"panic-in-query", fmt.Sprintf("%q over the memory limit: %v", sql, q.Err)}
+		}
+		e.Logf("mq %q rows=%d/%d err=%v", sql, len(q.Rows), len(full.Rows), q.Err != nil)
+		if q.Err != nil {
+			e.Count("probe.mq-stopped-by-memory-limit")
+			continue
+		}
+		if ok, diff := sameRows(full, q); !ok {
+			return &Violation{"memory-limit-truncated-without-error", fmt.Sprintf("%q on a table with %d keys while the process is over its memory limit returned %d of %d rows and a nil error: %s", sql, op.N, len(q.Rows), len(full.Rows), diff)}
+		}
+		e.Count("probe.mq-complete")
+	}
+	e.Count("nontrivial")
+	return nil
 }
 
 func execC13(e *Env, p *Plan) error {
@@ -148,6 +219,10 @@ func execC13(e *Env, p *Plan) error {
 			}
 		case "dq":
 			if v := c13Deadline(e, d, op); v != nil {
+				return v
+			}
+		case "mq":
+			if v := c13Memory(e, p, op); v != nil {
 				return v
 			}
 		case "hq":
